@@ -3,33 +3,45 @@
 package core
 
 // C02 (c): RefreshRuntime on multi-level quota trees, driven through the exported GroupQuotaManager
-// API only (UpdateQuota, UpdateClusterTotalResource, OnPodAdd, OnPodDelete, RefreshRuntime,
-// GetQuotaSummary).
+// API only (UpdateQuota, DeleteQuota, UpdateClusterTotalResource, OnPodAdd, OnPodDelete,
+// RefreshRuntime, GetQuotaSummary).
 //
 // Causal / in-domain rules of the generator (what the admission webhook and the scheduler guarantee):
-//   * a quota's parent exists and is a parent group when the quota is created; no re-parenting, no
-//     deletion of quotas, no change of the lend flag / is-parent flag (those are C01/C15 territory);
+//   * a quota's parent exists and is a parent group when the quota is created or moved; a quota is
+//     never moved below itself; trees stay at most 3 levels deep; the lend flag and the is-parent flag
+//     of an existing quota never change; only groups without children are deleted; a deleted name may be
+//     created again (as a new, empty group);
 //   * min <= max per dimension, every quota declares the same dimensions (cpu, memory), the children's
-//     mins sum to at most the parent's min (non-root parents), nothing negative;
-//   * pods are submitted to leaf groups only; a pod is added once and deleted at most once;
-//   * the cluster total never goes negative; nothing runs in the system/default groups, so the total
-//     handed to the root level is the cluster total.
+//     mins sum to at most the parent's min (non-root parents) at every moment, nothing negative;
+//   * pods are submitted to leaf groups only; a pod is added once and deleted at most once; the pods of
+//     a deleted group are gone with it;
+//   * the cluster total never goes negative and the manager has seen a node before quotas are
+//     evaluated; nothing runs in the system/default groups, so the total handed to the root level is
+//     the cluster total.
 //
 // Oracle, per level (parent p, its children as siblings, total = p's runtime as returned by
 // RefreshRuntime(p), or the cluster total for the root): exactly the sibling oracle of c02_test.go with
 //   request   = min(Request, Max) of the child's summary (the "limited request"; its exactness is C01)
-//   min       = the configured min (min-scaling off) or the summary's AutoScaleMin (min-scaling on: the
-//               scaling itself uses floating point and is not part of the statement; the value it
-//               produced is taken as the sibling's minimum)
+//   min       = the configured min. With min-scaling ON and only when the configured mins of the
+//               level do NOT fit in the level's total (sum of configured mins > total) the summary's
+//               AutoScaleMin is taken instead: the scaling formula uses floating point and is not part
+//               of the statement, but scaling is only legitimate when the minimums do not fit. When
+//               they fit (including sum == total exactly) every sibling is owed min(request, min).
 //   guarantee = the summary's Guaranteed (non-zero only with the ElasticQuotaGuaranteeUsage gate)
 //   weight    = the configured shared weight (the max when the annotation is absent or all zero)
 //   lend      = the configured flag (forced off by the ElasticQuotaGuaranteeUsage gate)
 // plus: two consecutive sweeps of RefreshRuntime over all groups in different orders return the same
-// values (idempotence, order independence of refreshing), and a fresh manager fed the same final quotas
-// and pods in a different order returns the same values (pure function of the inputs).
+// values (idempotence, order independence of refreshing), and after every epoch a fresh manager fed
+// the FINAL quotas, pods and total in a different order returns the same values (pure function of the
+// inputs; this is what exposes per-parent bookkeeping that went stale through a move or a delete).
 // With min-scaling on, scaled mins are refreshed lazily along the refreshed path only (the package's own
 // tests rely on this), so values are asserted after depth+1 stabilising sweeps; with min-scaling off the
 // very first sweep after a change is asserted.
+//
+// Placement: the total a non-root parent divides is its own runtime, which the harness cannot set
+// directly. place() moves the cluster total by bisection (the parent's runtime is monotone in it) until
+// RefreshRuntime(parent) lands on the wanted boundary; this only steers the workload, every verdict is
+// taken afterwards by the oracle above.
 
 import (
 	"encoding/json"
@@ -51,6 +63,8 @@ import (
 )
 
 var c02Dims = []corev1.ResourceName{corev1.ResourceCPU, corev1.ResourceMemory}
+
+const c02Root = extension.RootQuotaName
 
 type c02Vec [2]int64 // [milli-cpu, memory bytes]
 
@@ -82,8 +96,6 @@ type c02Group struct {
 	min, max       c02Vec
 	hasW           bool
 	w              c02Vec
-	depth          int
-	children       []string
 }
 
 // weight the code is expected to use: the annotation unless absent or all zero, then the max
@@ -102,13 +114,105 @@ type c02Pod struct {
 }
 
 type c02World struct {
-	groups map[string]*c02Group
-	order  []string // creation order (parents first)
-	pods   []*c02Pod
-	total  c02Vec
-	scale  bool
-	gate   bool
-	depth  int
+	groups   map[string]*c02Group
+	order    []string // existing groups in creation order
+	deleted  []string // names free for re-creation
+	pods     []*c02Pod
+	total    c02Vec
+	scale    bool
+	gate     bool
+	scenario bool
+	vs       int
+	nextID   int
+	podID    int
+}
+
+func (w *c02World) kids(p string) []string {
+	var out []string
+	for _, n := range w.order {
+		if w.groups[n].parent == p {
+			out = append(out, n)
+		}
+	}
+	return out
+}
+
+func (w *c02World) depthOf(n string) int {
+	d := 0
+	for n != c02Root {
+		d++
+		n = w.groups[n].parent
+	}
+	return d
+}
+
+func (w *c02World) height(n string) int {
+	h := 0
+	for _, k := range w.kids(n) {
+		if x := w.height(k) + 1; x > h {
+			h = x
+		}
+	}
+	return h
+}
+
+func (w *c02World) maxDepth() int {
+	m := 0
+	for _, n := range w.order {
+		if d := w.depthOf(n); d > m {
+			m = d
+		}
+	}
+	return m
+}
+
+func (w *c02World) inSubtree(n, top string) bool {
+	for n != c02Root {
+		if n == top {
+			return true
+		}
+		n = w.groups[n].parent
+	}
+	return false
+}
+
+func (w *c02World) sumKidsMin(p string, d int, except string) int64 {
+	var s int64
+	for _, k := range w.kids(p) {
+		if k != except {
+			s += w.groups[k].min[d]
+		}
+	}
+	return s
+}
+
+// room left for the min of a (new or moved) child of p; unlimited below the root
+func (w *c02World) room(p string, d int, except string) int64 {
+	if p == c02Root {
+		return math.MaxInt64 / 64
+	}
+	return w.groups[p].min[d] - w.sumKidsMin(p, d, except)
+}
+
+func (w *c02World) leaves() []string {
+	var out []string
+	for _, n := range w.order {
+		if !w.groups[n].isParent {
+			out = append(out, n)
+		}
+	}
+	return out
+}
+
+func (w *c02World) remove(n string) {
+	for i, x := range w.order {
+		if x == n {
+			w.order = append(w.order[:i:i], w.order[i+1:]...)
+			break
+		}
+	}
+	delete(w.groups, n)
+	w.deleted = append(w.deleted, n)
 }
 
 func (g *c02Group) object() *v1alpha1.ElasticQuota {
@@ -126,11 +230,32 @@ func (g *c02Group) object() *v1alpha1.ElasticQuota {
 	return q
 }
 
+func (g *c02Group) String() string {
+	return fmt.Sprintf("%s parent=%s isParent=%v lend=%v min=%v max=%v weight=%v(%v)", g.name, g.parent, g.isParent, g.lend, g.min, g.max, g.w, g.hasW)
+}
+
 func (p *c02Pod) object() *corev1.Pod {
 	return &corev1.Pod{
 		ObjectMeta: metav1.ObjectMeta{Namespace: "ns", Name: p.name, UID: types.UID(p.name)},
 		Spec: corev1.PodSpec{NodeName: p.node, Containers: []corev1.Container{{Name: "c",
 			Resources: corev1.ResourceRequirements{Requests: c02RL(p.req)}}}},
+	}
+}
+
+// c02HostileBytes: byte-scale memory amounts whose products exceed 2^53 (a min-scaling formula in
+// float64 cannot reproduce them exactly) next to the usual round ones.
+func c02HostileBytes(r *kit.Rand) int64 {
+	switch r.Intn(8) {
+	case 0:
+		return kit.Pick(r, []int64{100e9, 150e9, 250e9, 300e9, 1e12 + 7})
+	case 1:
+		return int64(r.Range(1, 400))*1e9 + int64(r.Range(0, 999))
+	case 2:
+		return int64(r.Range(1, 256))<<30 + int64(r.Range(-1, 1))
+	case 3:
+		return int64(1)<<uint(r.Range(40, 46)) - int64(r.Range(1, 9))
+	default:
+		return (int64(1)<<uint(r.Range(37, 44)) + r.Int63n(int64(1)<<37)) | 1
 	}
 }
 
@@ -142,7 +267,12 @@ func c02TreeValue(r *kit.Rand, scale, d int) int64 {
 		if d == 0 {
 			return kit.Pick(r, []int64{0, 500, 1000, 1500, 4000, 16000, 64000, 96000, int64(r.Range(0, 200000))})
 		}
-		return kit.Pick(r, []int64{0, 1 << 30, 3 << 30, 16 << 30, 100 << 30, 1 << 40, int64(r.Range(0, 1<<20)) << 20, r.Int63n(1 << 41)})
+		return kit.Pick(r, []int64{0, 1 << 30, 3 << 30, 16 << 30, 100 << 30, 1 << 40, int64(r.Range(0, 1<<20)) << 20, r.Int63n(1 << 41), c02HostileBytes(r)})
+	case 3: // scenario: min-scaling boundaries with byte-scale memory and milli-cpu
+		if d == 0 {
+			return kit.Pick(r, []int64{1, 999, 1000, 64000, 100000, int64(r.Range(1, 10000000)), int64(r.Range(1, 300)) * 1000})
+		}
+		return c02HostileBytes(r)
 	default: // large
 		if d == 0 {
 			return r.Int63n(1 << 40)
@@ -151,10 +281,27 @@ func c02TreeValue(r *kit.Rand, scale, d int) int64 {
 	}
 }
 
-func c02GenWorld(r *kit.Rand) (*c02World, int) {
-	w := &c02World{groups: map[string]*c02Group{}, scale: r.Pct(40), gate: r.Pct(15)}
-	vs := r.Weighted(45, 40, 15)
-	id := 0
+func (w *c02World) newName() string {
+	n := fmt.Sprintf("g%02d", w.nextID)
+	w.nextID++
+	return n
+}
+
+func (w *c02World) add(g *c02Group) {
+	w.groups[g.name] = g
+	w.order = append(w.order, g.name)
+}
+
+func c02GenWorld(r *kit.Rand) *c02World {
+	w := &c02World{groups: map[string]*c02Group{}}
+	if r.Pct(25) {
+		w.scenario, w.scale, w.vs = true, true, 3
+		c02GenScenario(r, w)
+		return w
+	}
+	w.scale, w.gate = r.Pct(40), r.Pct(15)
+	w.vs = r.Weighted(45, 40, 15)
+	vs := w.vs
 	var gen func(parent *c02Group, depth int, minBudget c02Vec)
 	gen = func(parent *c02Group, depth int, minBudget c02Vec) {
 		nch := r.Range(2, 4)
@@ -163,13 +310,9 @@ func c02GenWorld(r *kit.Rand) (*c02World, int) {
 		}
 		var made []*c02Group
 		for i := 0; i < nch; i++ {
-			g := &c02Group{name: fmt.Sprintf("g%02d", id), depth: depth, lend: r.Pct(70)}
-			id++
-			if parent == nil {
-				g.parent = extension.RootQuotaName
-			} else {
+			g := &c02Group{name: w.newName(), lend: r.Pct(70), parent: c02Root}
+			if parent != nil {
 				g.parent = parent.name
-				parent.children = append(parent.children, g.name)
 			}
 			g.isParent = depth < 3 && r.Pct(map[int]int{1: 60, 2: 30}[depth])
 			for d := 0; d < 2; d++ {
@@ -197,12 +340,8 @@ func c02GenWorld(r *kit.Rand) (*c02World, int) {
 				}
 			}
 			c02GenWeight(r, g, vs)
-			w.groups[g.name] = g
-			w.order = append(w.order, g.name)
+			w.add(g)
 			made = append(made, g)
-			if depth > w.depth {
-				w.depth = depth
-			}
 		}
 		for _, g := range made {
 			if g.isParent {
@@ -211,7 +350,93 @@ func c02GenWorld(r *kit.Rand) (*c02World, int) {
 		}
 	}
 	gen(nil, 1, c02Vec{})
-	return w, vs
+	return w
+}
+
+// c02GenScenario builds the crafted min-scaling tree: two or three top-level parent groups whose
+// children are leaves with byte-scale memory mins and milli-cpu mins, skewed weights, and requests at
+// or above the mins, so that (a) a parent's total can be put exactly on the sum of its children's mins
+// and (b) a child can be moved to / deleted from a parent while the old parent's total sits between the
+// two min sums.
+func c02GenScenario(r *kit.Rand, w *c02World) {
+	const hugeMem, hugeCPU = int64(1) << 52, int64(1) << 36
+	nTop := r.Range(2, 3)
+	for i := 0; i < nTop; i++ {
+		p := &c02Group{name: w.newName(), parent: c02Root, isParent: true, lend: r.Pct(65), max: c02Vec{hugeCPU, hugeMem}}
+		w.add(p)
+		nk := r.Range(2, 4)
+		if i > 0 {
+			nk = r.Range(0, 3)
+		}
+		heavy := r.Intn(nk + 1)
+		var sum c02Vec
+		for k := 0; k < nk; k++ {
+			g := &c02Group{name: w.newName(), parent: p.name, lend: r.Pct(70)}
+			for d := 0; d < 2; d++ {
+				g.min[d] = c02TreeValue(r, 3, d)
+				if r.Pct(8) {
+					g.min[d] = 0
+				}
+				g.max[d] = kit.Pick(r, []int64{c02Vec{hugeCPU, hugeMem}[d], g.min[d] * 4, g.min[d] + c02TreeValue(r, 3, d)})
+				sum[d] += g.min[d]
+			}
+			// skewed weights: a rounding unit that has to be shared goes to the heavy sibling
+			switch r.Intn(4) {
+			case 0: // default weight = max
+			case 1:
+				g.hasW, g.w = true, c02Vec{1, 1}
+				if k == heavy {
+					g.w = c02Vec{1 << 30, 1 << 40}
+				}
+			case 2:
+				g.hasW, g.w = true, c02Vec{kit.Pick(r, c02Primes[:14]), kit.Pick(r, c02Primes[:14])}
+			default:
+				g.hasW, g.w = true, c02Vec{int64(r.Range(1, 1000)), r.Int63n(1<<40) + 1}
+				if k == heavy {
+					g.w = c02Vec{1 << 36, 1 << 52}
+				}
+			}
+			w.add(g)
+		}
+		// workload bias: prefer memory mins for which a float64 "total*min/sum" at total == sum is not
+		// exact (an implementation that scaled there would lose a unit); re-draw single mins a few times
+		if kids := w.kids(p.name); len(kids) >= 2 {
+			for try := 0; try < 30; try++ {
+				bad := 0
+				for _, k := range kids {
+					if mn := w.groups[k].min[1]; mn > 0 && c02FloatInexact(sum[1], mn) {
+						bad++
+					}
+				}
+				if bad >= 2 || (bad == 1 && try >= 15) {
+					break
+				}
+				g := w.groups[kit.Pick(r, kids)]
+				sum[1] -= g.min[1]
+				g.min[1] = c02HostileBytes(r)
+				g.max[1] = kit.Pick(r, []int64{hugeMem, g.min[1] * 4})
+				sum[1] += g.min[1]
+			}
+		}
+		for d := 0; d < 2; d++ {
+			slack := int64(0)
+			if r.Pct(50) || i > 0 {
+				slack = c02TreeValue(r, 3, d)
+				if i > 0 && r.Pct(70) {
+					slack += c02TreeValue(r, 3, d) + c02TreeValue(r, 3, d) // room to take a child in
+				}
+			}
+			p.min[d] = sum[d] + slack
+		}
+	}
+	if r.Pct(40) {
+		g := &c02Group{name: w.newName(), parent: c02Root, lend: r.Pct(70)}
+		for d := 0; d < 2; d++ {
+			g.min[d] = c02TreeValue(r, 3, d)
+			g.max[d] = g.min[d] * 3
+		}
+		w.add(g)
+	}
 }
 
 func c02GenWeight(r *kit.Rand, g *c02Group, vs int) {
@@ -237,27 +462,13 @@ func c02GenWeight(r *kit.Rand, g *c02Group, vs int) {
 	}
 }
 
-func (w *c02World) leaves() []string {
-	var out []string
-	for _, n := range w.order {
-		if !w.groups[n].isParent {
-			out = append(out, n)
-		}
-	}
-	return out
-}
-
-// topLevelSums: sums used to place the cluster total around the interesting boundaries
-func (w *c02World) genTotal(r *kit.Rand, vs int) c02Vec {
+func (w *c02World) genTotal(r *kit.Rand) c02Vec {
 	var t c02Vec
 	for d := 0; d < 2; d++ {
 		var sumMin, sumMax int64
-		for _, n := range w.order {
-			g := w.groups[n]
-			if g.depth == 1 {
-				sumMin += g.min[d]
-				sumMax += g.max[d]
-			}
+		for _, n := range w.kids(c02Root) {
+			sumMin += w.groups[n].min[d]
+			sumMax += c02Min64(w.groups[n].max[d], 1<<57)
 		}
 		switch r.Intn(8) {
 		case 0:
@@ -273,18 +484,22 @@ func (w *c02World) genTotal(r *kit.Rand, vs int) c02Vec {
 		case 5:
 			t[d] = sumMax
 		case 6:
-			t[d] = sumMax + c02TreeValue(r, vs, d)
+			t[d] = sumMax + c02TreeValue(r, w.vs, d)
 		default:
-			t[d] = c02TreeValue(r, vs, d) + c02TreeValue(r, vs, d)
+			t[d] = c02TreeValue(r, w.vs, d) + c02TreeValue(r, w.vs, d)
 		}
 	}
 	return t
 }
 
-func (w *c02World) genPodReq(r *kit.Rand, g *c02Group, vs int) c02Vec {
+func (w *c02World) genPodReq(r *kit.Rand, g *c02Group) c02Vec {
 	var v c02Vec
 	for d := 0; d < 2; d++ {
-		switch r.Intn(7) {
+		k := r.Intn(7)
+		if w.scenario {
+			k = kit.Pick(r, []int{2, 2, 3, 4, 4, 6, 1})
+		}
+		switch k {
 		case 0:
 			v[d] = 0
 		case 1:
@@ -298,13 +513,13 @@ func (w *c02World) genPodReq(r *kit.Rand, g *c02Group, vs int) c02Vec {
 		case 5:
 			v[d] = g.max[d] + int64(r.Range(0, 3))
 		default:
-			v[d] = c02TreeValue(r, vs, d)
+			v[d] = c02TreeValue(r, w.vs, d)
 		}
 	}
 	return v
 }
 
-// c02Mgr wraps a real manager and the bookkeeping of what has been applied to it.
+// c02Mgr wraps a real manager and the cluster total applied to it.
 type c02Mgr struct {
 	gqm   *GroupQuotaManager
 	total c02Vec
@@ -383,178 +598,679 @@ func c02SetGate(c *kit.Case, on bool) {
 	}
 }
 
+// ---------------------------------------------------------------------------------------------
+// one case
+
+type c02Env struct {
+	c          *kit.Case
+	r          *kit.Rand
+	w          *c02World
+	m          *c02Mgr
+	st         c02Stats
+	scr        c02Scratch
+	nontrivial bool
+}
+
+func (e *c02Env) tag(name string) {
+	e.c.Count(name, 1)
+	if e.w.scale {
+		e.c.Count(name+"_minscale", 1)
+	}
+}
+
+func (e *c02Env) apply(g *c02Group, what string) {
+	if err := e.m.gqm.UpdateQuota(g.object()); err != nil {
+		e.c.Harness("UpdateQuota(%s): %v", g.name, err)
+	}
+	e.c.Op("%s %s", what, g)
+}
+
+func (e *c02Env) addPodTo(g *c02Group, req c02Vec) {
+	w := e.w
+	p := &c02Pod{name: fmt.Sprintf("p%03d", w.podID), group: g.name, req: req, live: true}
+	w.podID++
+	if e.r.Pct(50) {
+		p.node = "n1"
+	}
+	w.pods = append(w.pods, p)
+	e.m.gqm.OnPodAdd(p.group, p.object())
+	e.c.Op("pod add %s -> %s req=%v node=%q", p.name, p.group, p.req, p.node)
+	e.c.Count("op_pod_add", 1)
+}
+
+func (e *c02Env) addPod() {
+	leaves := e.w.leaves()
+	if len(leaves) == 0 {
+		return
+	}
+	g := e.w.groups[kit.Pick(e.r, leaves)]
+	e.addPodTo(g, e.w.genPodReq(e.r, g))
+}
+
+func (e *c02Env) setTotal(t c02Vec) {
+	e.m.setTotal(t)
+	e.w.total = t
+}
+
+// stabilise refreshes, top-down, every sibling on the path to p so that the (lazily updated) scaled
+// mins on the path are current, and returns p's runtime.
+func (e *c02Env) runtimeOf(p string) c02Vec {
+	if e.w.scale {
+		var path []string
+		for n := p; n != c02Root; n = e.w.groups[n].parent {
+			path = append([]string{n}, path...)
+		}
+		for _, a := range path {
+			for _, s := range e.w.kids(e.w.groups[a].parent) {
+				e.m.gqm.RefreshRuntime(s)
+			}
+		}
+	}
+	return c02Of(e.m.gqm.RefreshRuntime(p))
+}
+
+// place moves the cluster total in dimension d until the total divided among p's children (the
+// cluster total for the root, p's runtime otherwise) lies in [lo,hi]. Workload steering only.
+func (e *c02Env) place(p string, d int, lo, hi int64) bool {
+	if lo < 0 || hi < lo {
+		return false
+	}
+	t := e.m.total
+	if p == c02Root {
+		t[d] = lo
+		if hi > lo {
+			t[d] = lo + e.r.Int63n(hi-lo+1)
+		}
+		e.setTotal(t)
+		e.c.Op("cluster total %v (placed: root divides %d in %s)", t, t[d], c02Dims[d])
+		return true
+	}
+	probe := func(v int64) int64 {
+		t[d] = v
+		e.m.setTotal(t)
+		return e.runtimeOf(p)[d]
+	}
+	a, b := int64(0), int64(1)<<59
+	if probe(b) < lo {
+		e.setTotal(e.w.total)
+		return false
+	}
+	for a < b { // smallest cluster total with runtime(p) >= lo
+		mid := a + (b-a)/2
+		if probe(mid) >= lo {
+			b = mid
+		} else {
+			a = mid + 1
+		}
+	}
+	got := probe(a)
+	if got < lo || got > hi {
+		e.setTotal(e.w.total)
+		return false
+	}
+	e.setTotal(t)
+	e.c.Op("cluster total %v (placed by bisection: %s divides %d in %s)", t, p, got, c02Dims[d])
+	return true
+}
+
+// wantAtLeast adds pods below p so that p's limited request reaches v in dimension d (otherwise p's
+// runtime cannot be steered up to v). Best effort.
+func (e *c02Env) wantAtLeast(p string, d int, v int64) {
+	if p == c02Root {
+		return
+	}
+	for try := 0; try < 3; try++ {
+		s, ok := e.m.gqm.GetQuotaSummary(p, false)
+		if !ok {
+			return
+		}
+		have := c02Min64(c02Of(s.Request)[d], e.w.groups[p].max[d])
+		if have >= v {
+			return
+		}
+		var cands []string
+		for _, n := range e.w.leaves() {
+			if e.w.inSubtree(n, p) && n != p {
+				cands = append(cands, n)
+			}
+		}
+		if len(cands) == 0 {
+			return
+		}
+		var req c02Vec
+		req[d] = v - have
+		e.addPodTo(e.w.groups[kit.Pick(e.r, cands)], req)
+	}
+}
+
+func c02FloatInexact(total, min int64) bool {
+	return int64(float64(total)*float64(min)/float64(total)) != min
+}
+
+// boundary puts the total of one parent exactly on (or one unit beside) the sum of its children's mins.
+func (e *c02Env) boundary() {
+	w, r := e.w, e.r
+	cands := []string{}
+	for _, n := range append([]string{c02Root}, w.order...) {
+		if len(w.kids(n)) >= 2 {
+			cands = append(cands, n)
+		}
+	}
+	if len(cands) == 0 {
+		return
+	}
+	p := kit.Pick(r, cands)
+	d := r.Weighted(30, 70)
+	sum := w.sumKidsMin(p, d, "")
+	if sum == 0 {
+		d = 1 - d
+		sum = w.sumKidsMin(p, d, "")
+	}
+	delta := int64(r.Weighted(25, 50, 25) - 1)
+	target := sum + delta
+	e.wantAtLeast(p, d, target)
+	if !e.place(p, d, target, target) {
+		e.c.Count("boundary_placement_missed", 1)
+		return
+	}
+	e.tag("boundary_total_at_sum_min_" + map[int64]string{-1: "minus1", 0: "exact", 1: "plus1"}[delta])
+	if delta == 0 && sum >= 1<<40 {
+		e.tag("boundary_total_at_sum_min_ge_2p40")
+		for _, k := range w.kids(p) {
+			if c02FloatInexact(sum, w.groups[k].min[d]) {
+				e.tag("boundary_total_at_sum_min_float_inexact")
+				break
+			}
+		}
+	}
+}
+
+// afterDetach steers, with min-scaling on, the total of the old parent between the min sum of the
+// remaining children and the sum including the detached child (or the new parent's total between its
+// old and its new sum).
+func (e *c02Env) afterDetach(oldParent, newParent string, oldMin, newMin c02Vec) {
+	w, r := e.w, e.r
+	if !w.scale {
+		return
+	}
+	d := r.Weighted(30, 70)
+	if oldMin[d] == 0 {
+		d = 1 - d
+	}
+	if newParent != "" && newMin[d] > 0 && r.Pct(35) {
+		// the new parent's side: its children's mins, now including the newcomer, no longer fit
+		with := w.sumKidsMin(newParent, d, "")
+		lo, hi := with-newMin[d], with-1
+		e.wantAtLeast(newParent, d, hi)
+		if e.place(newParent, d, lo, hi) {
+			e.tag("new_parent_total_between_sums")
+		} else {
+			e.c.Count("between_sums_placement_missed", 1)
+		}
+		return
+	}
+	if oldMin[d] == 0 || len(w.kids(oldParent)) == 0 {
+		return
+	}
+	rem := w.sumKidsMin(oldParent, d, "")
+	lo, hi := rem, rem+oldMin[d]-1
+	switch r.Intn(4) {
+	case 0:
+		hi = lo // exactly the remaining children's sum
+	case 1:
+		lo = hi
+	}
+	e.wantAtLeast(oldParent, d, hi)
+	if e.place(oldParent, d, lo, hi) {
+		e.tag("old_parent_total_between_sums")
+	} else {
+		e.c.Count("between_sums_placement_missed", 1)
+	}
+}
+
+// reparent moves one group below another parent, alone or together with a min/max change.
+func (e *c02Env) reparent() bool {
+	w, r := e.w, e.r
+	for _, i := range r.Perm(len(w.order)) {
+		x := w.groups[w.order[i]]
+		h := w.height(x.name)
+		var targets []string
+		for _, t := range append([]string{c02Root}, w.order...) {
+			if t == x.parent || t == x.name {
+				continue
+			}
+			if t != c02Root && (!w.groups[t].isParent || w.inSubtree(t, x.name)) {
+				continue
+			}
+			td := 0
+			if t != c02Root {
+				td = w.depthOf(t)
+			}
+			if td+1+h <= 3 {
+				targets = append(targets, t)
+			}
+		}
+		kit.Shuffle(r, targets)
+		for _, t := range targets {
+			combined := r.Pct(40)
+			newMin := x.min
+			fits := true
+			for d := 0; d < 2; d++ {
+				room := w.room(t, d, x.name)
+				own := w.sumKidsMin(x.name, d, "")
+				if newMin[d] > room {
+					if room < own {
+						fits = false
+						break
+					}
+					combined = true
+					newMin[d] = own + r.Int63n(room-own+1)
+					if r.Bool() {
+						newMin[d] = room
+					}
+				} else if combined && r.Bool() {
+					hi := c02Min64(room, x.max[d])
+					if hi >= own {
+						newMin[d] = own + r.Int63n(hi-own+1)
+					}
+				}
+			}
+			if !fits {
+				continue
+			}
+			old, oldMin := x.parent, x.min
+			x.parent, x.min = t, newMin
+			if combined && r.Bool() {
+				for d := 0; d < 2; d++ {
+					x.max[d] = x.min[d] + c02TreeValue(r, w.vs, d)
+				}
+			}
+			what := "re-parent"
+			if combined {
+				what = "re-parent+update"
+				e.tag("op_reparent_combined")
+			}
+			e.tag("op_reparent")
+			e.apply(x, fmt.Sprintf("%s (from %s, min was %v)", what, old, oldMin))
+			e.afterDetach(old, t, oldMin, x.min)
+			return true
+		}
+	}
+	return false
+}
+
+// deleteLeaf deletes a group without children (draining its pods first or not) and, often, creates
+// it again under the same name.
+func (e *c02Env) deleteLeaf() bool {
+	w, r := e.w, e.r
+	var cands []string
+	for _, n := range w.order {
+		if len(w.kids(n)) == 0 && len(w.kids(w.groups[n].parent)) >= 2 {
+			cands = append(cands, n)
+		}
+	}
+	if len(cands) == 0 {
+		return false
+	}
+	x := w.groups[kit.Pick(r, cands)]
+	drain := r.Bool()
+	for _, p := range w.pods {
+		if p.live && p.group == x.name {
+			if drain {
+				e.m.gqm.OnPodDelete(p.group, p.object())
+				e.c.Op("pod delete %s from %s", p.name, p.group)
+			}
+			p.live = false
+		}
+	}
+	if err := e.m.gqm.DeleteQuota(x.object()); err != nil {
+		e.c.Harness("DeleteQuota(%s): %v", x.name, err)
+	}
+	e.c.Op("delete %s (pods drained first=%v)", x, drain)
+	e.tag("op_delete")
+	old, oldMin := x.parent, x.min
+	w.remove(x.name)
+	e.afterDetach(old, "", oldMin, c02Vec{})
+	return true
+}
+
+func (e *c02Env) recreate() bool {
+	w, r := e.w, e.r
+	if len(w.deleted) == 0 {
+		return false
+	}
+	i := r.Intn(len(w.deleted))
+	name := w.deleted[i]
+	cands := []string{c02Root}
+	for _, n := range w.order {
+		if w.groups[n].isParent && w.depthOf(n) < 3 {
+			cands = append(cands, n, n)
+		}
+	}
+	g := &c02Group{name: name, parent: kit.Pick(r, cands), lend: r.Pct(70)}
+	g.isParent = w.depthOfParent(g.parent) < 2 && r.Pct(20)
+	for d := 0; d < 2; d++ {
+		g.min[d] = c02Min64(c02TreeValue(r, w.vs, d), w.room(g.parent, d, ""))
+		if g.min[d] < 0 {
+			g.min[d] = 0
+		}
+		g.max[d] = g.min[d] + c02TreeValue(r, w.vs, d)
+	}
+	c02GenWeight(r, g, w.vs)
+	w.deleted = append(w.deleted[:i], w.deleted[i+1:]...)
+	w.add(g)
+	e.apply(g, "re-create")
+	e.tag("op_recreate_same_name")
+	if w.scale && !g.isParent && r.Pct(60) {
+		e.addPodTo(g, w.genPodReq(r, g))
+	}
+	return true
+}
+
+func (w *c02World) depthOfParent(p string) int {
+	if p == c02Root {
+		return 0
+	}
+	return w.depthOf(p)
+}
+
+func (e *c02Env) updateFields() {
+	w, r := e.w, e.r
+	g := w.groups[kit.Pick(r, w.order)]
+	switch r.Intn(3) {
+	case 0: // min, within [sum of children mins, min(max, room below the parent)]
+		for d := 0; d < 2; d++ {
+			lo := w.sumKidsMin(g.name, d, "")
+			hi := c02Min64(g.max[d], w.room(g.parent, d, g.name))
+			if hi >= lo {
+				g.min[d] = lo + r.Int63n(hi-lo+1)
+				if r.Pct(25) {
+					g.min[d] = hi
+				}
+			}
+		}
+		e.c.Count("op_min_change", 1)
+	case 1: // max >= min
+		for d := 0; d < 2; d++ {
+			g.max[d] = g.min[d] + c02TreeValue(r, w.vs, d)
+			if r.Pct(20) {
+				g.max[d] = g.min[d]
+			}
+		}
+		e.c.Count("op_max_change", 1)
+	default:
+		c02GenWeight(r, g, w.vs)
+		e.c.Count("op_weight_change", 1)
+	}
+	e.apply(g, "update")
+}
+
+// buildFresh feeds a new manager the final quotas (parents first, siblings shuffled), pods and total.
+func (e *c02Env) buildFresh() (*c02Mgr, []string) {
+	w, r := e.w, e.r
+	f := c02NewMgr(w)
+	var forder []string
+	var walk func(parent string)
+	walk = func(parent string) {
+		kids := w.kids(parent)
+		kit.Shuffle(r, kids)
+		forder = append(forder, kids...)
+		for _, k := range kids {
+			walk(k)
+		}
+	}
+	walk(c02Root)
+	totalFirst := r.Bool()
+	if totalFirst {
+		f.setTotal(w.total)
+	}
+	for _, n := range forder {
+		if err := f.gqm.UpdateQuota(w.groups[n].object()); err != nil {
+			e.c.Harness("fresh UpdateQuota(%s): %v", n, err)
+		}
+	}
+	pods := append([]*c02Pod(nil), w.pods...)
+	kit.Shuffle(r, pods)
+	for _, p := range pods {
+		if p.live {
+			f.gqm.OnPodAdd(p.group, p.object())
+		}
+	}
+	if !totalFirst {
+		f.setTotal(w.total)
+	}
+	return f, forder
+}
+
+func (e *c02Env) check(where string, structural bool) {
+	c, w, m, r := e.c, e.w, e.m, e.r
+	all := w.order
+	depth := w.maxDepth()
+	if w.scale {
+		for i := 0; i < depth; i++ {
+			m.sweep(c02Shuffled(r, all))
+		}
+	}
+	o1 := c02Shuffled(r, all)
+	rt1 := m.sweep(o1)
+	o2 := c02Shuffled(r, all)
+	rt2 := m.sweep(o2)
+	c.Count("refresh_sweeps_compared", 1)
+	for _, n := range all {
+		if rt1[n] != rt2[n] {
+			sig := "C02/tree/refresh-not-idempotent"
+			if w.scale {
+				sig += "-minscale"
+			}
+			c.Fail(sig, "%s: RefreshRuntime(%s) returned %v in a sweep in order %v and %v in the next sweep in order %v, nothing changed in between", where, n, rt1[n], o1, rt2[n], o2)
+		}
+	}
+	// immediate repetition on one group
+	n := kit.Pick(r, all)
+	a, b := c02Of(m.gqm.RefreshRuntime(n)), c02Of(m.gqm.RefreshRuntime(n))
+	if a != b || a != rt1[n] {
+		c.Fail("C02/tree/refresh-not-idempotent", "%s: RefreshRuntime(%s) twice in a row: %v then %v (sweep value %v)", where, n, a, b, rt1[n])
+	}
+	// per-level oracle
+	sums := map[string]*QuotaInfoSummary{}
+	for _, n := range all {
+		s, ok := m.gqm.GetQuotaSummary(n, false)
+		if !ok {
+			c.Harness("no summary for %s", n)
+		}
+		sums[n] = s
+		g := w.groups[n]
+		if c02Of(s.Max) != g.max || c02Of(s.Min) != g.min || c02Of(s.SharedWeight) != g.effW() {
+			c.Count("summary_differs_from_spec", 1)
+		}
+	}
+	parents := []string{c02Root}
+	for _, n := range all {
+		if len(w.kids(n)) > 0 {
+			parents = append(parents, n)
+		}
+	}
+	for _, p := range parents {
+		kids := w.kids(p)
+		total := m.total
+		lvl := 1
+		if p != c02Root {
+			total = rt1[p]
+			lvl = w.depthOf(p) + 1
+		}
+		for d := 0; d < 2; d++ {
+			sibs := make([]c02Sib, len(kids))
+			rt := make([]int64, len(kids))
+			cfgSum := w.sumKidsMin(p, d, "")
+			fit := cfgSum <= total[d]
+			scaledSeen := false
+			for i, k := range kids {
+				g, s := w.groups[k], sums[k]
+				req := c02Min64(c02Of(s.Request)[d], g.max[d])
+				mn := g.min[d]
+				if w.scale {
+					am := c02Of(s.AutoScaleMin)[d]
+					if am != mn {
+						scaledSeen = true
+						if fit {
+							// the configured mins fit, yet the manager works with another min: counted;
+							// the verdict is taken on the runtimes with the configured min
+							c.Count("converse_misses_scaled_min_although_mins_fit", 1)
+						} else {
+							mn = am
+						}
+					}
+				}
+				sibs[i] = c02Sib{name: k, req: req, min: mn, guar: c02Of(s.Guaranteed)[d], w: g.effW()[d], lend: g.lend && !w.gate}
+				rt[i] = rt1[k][d]
+			}
+			if scaledSeen {
+				c.Count("levels_with_scaled_min", 1)
+			}
+			if w.scale && fit {
+				c.Count("minscale_levels_mins_fit", 1)
+				if cfgSum == total[d] && cfgSum > 0 {
+					c.Count("minscale_levels_total_equals_sum_min", 1)
+				}
+			}
+			sig, msg, o := c02Check("tree", sibs, total[d], rt, false, &e.st, &e.scr)
+			if sig != "" {
+				text := fmt.Sprintf("%s: children of %s, dimension %s, total (parent's runtime) %d, sum of configured mins %d: %s runtime=%v: %s", where, p, c02Dims[d], total[d], cfgSum, c02SibsString(sibs), rt, msg)
+				var hit []string
+				for _, line := range m.staleNoLend(w) {
+					for _, k := range kids {
+						if len(line) > len(k) && line[:len(k)+1] == k+"/" {
+							hit = append(hit, line)
+						}
+					}
+				}
+				if len(hit) > 0 {
+					c.Report(c02SigStale, "%s [relation violated: %s; the parent's runtime calculator divides with a request of a non-lending child that was not refreshed when its min was set: %v]", text, sig, hit)
+					c.Count("levels_hit_by_stale_nolend_request", 1)
+					continue
+				}
+				if w.scale {
+					sig += "-minscale"
+				}
+				c.Fail(sig, "%s", text)
+			}
+			c.Count("levels_checked", 1)
+			c.Count(fmt.Sprintf("levels_checked_depth%d", lvl), 1)
+			if o.class == c02ClassPartial {
+				e.nontrivial = true
+				if lvl > 1 {
+					c.Count("partial_divisions_below_top_level", 1)
+				}
+			}
+			nComp, zeroW, nolend := c02Describe(sibs)
+			c.Seen("tree", lvl, len(sibs), o.class, c02Min64(int64(o.rounds), 7), o.residual, nComp, zeroW, nolend, w.scale, w.gate, structural)
+		}
+	}
+	// fresh instance fed the final inputs in another order
+	f, forder := e.buildFresh()
+	if w.scale {
+		for i := 0; i < depth; i++ {
+			f.sweep(c02Shuffled(r, forder))
+		}
+	}
+	fresh := f.sweep(c02Shuffled(r, forder))
+	c.Count("fresh_instance_comparisons", 1)
+	if structural {
+		e.tag("fresh_instance_comparisons_after_move_or_delete")
+	}
+	// The differential is about the division: it needs both managers to divide the same inputs. The
+	// request and (with the guarantee gate) the guaranteed amount are accounting results, not part of
+	// C02; when they differ between the two managers the comparison is skipped and counted.
+	for _, n := range all {
+		fs, ok := f.gqm.GetQuotaSummary(n, false)
+		if !ok {
+			c.Harness("fresh manager has no summary for %s", n)
+		}
+		if c02Of(fs.Request) != c02Of(sums[n].Request) {
+			c.Count("fresh_skipped_request_accounting_differs", 1)
+			return
+		}
+		if c02Of(fs.Guaranteed) != c02Of(sums[n].Guaranteed) {
+			c.Count("fresh_skipped_guaranteed_accounting_differs", 1)
+			return
+		}
+	}
+	for _, n := range all {
+		if fresh[n] != rt1[n] {
+			sig := "C02/tree/fresh-instance-differs"
+			if w.scale {
+				sig += "-minscale"
+			}
+			text := fmt.Sprintf("%s: group %s: the manager that lived through the history reports runtime %v, a fresh manager fed the same final quotas (order %v), pods and cluster total %v reports %v", where, n, rt1[n], forder, w.total, fresh[n])
+			if a, b := m.staleNoLend(w), f.staleNoLend(w); len(a)+len(b) > 0 {
+				c.Report(c02SigStale, "%s [history dependence; stale requests of non-lending groups in the parent's calculator: lived %v, fresh %v]", text, a, b)
+				c.Count("fresh_instance_hit_by_stale_nolend_request", 1)
+				break
+			}
+			c.Fail(sig, "%s", text)
+		}
+	}
+}
+
 func TestVerifC02Tree(t *testing.T) {
 	gate0 := k8sfeature.DefaultFeatureGate.Enabled(features.ElasticQuotaGuaranteeUsage)
-	kit.Run(t, kit.Config{Property: "C02", Unit: "tree", Quick: 2500, Thorough: 60000,
-		Rule: "quota trees of depth 1-3 (2-5 top groups, 2-4 children per parent, 4-25 groups) created through UpdateQuota, values from a small (0..12, frequent ties/residues), realistic or 2^56-scale pool, shared weights absent (=max) / zero in one dimension / primes / huge, 30% non-lending groups, 0-3 pods per leaf with requests placed around min and max, cluster total placed below/at/above the top-level min and max sums; min-scaling on in 40% of the cases, ElasticQuotaGuaranteeUsage gate on in 15%; 2-4 epochs of changes (cluster total, pod add/delete, min/max/weight updates) each followed by refresh sweeps and the per-level sibling oracle, finally a fresh manager fed the same inputs in another order; distinct = (depth of the level, siblings, outcome class, rounds, residual?, zero-weight competitor?, non-lending?, scaling, gate); non-trivial = some level divided partially (pool shared but not every request met)"},
+	kit.Run(t, kit.Config{Property: "C02", Unit: "tree", Quick: 2500, Thorough: 50000,
+		Rule: "75% random quota trees of depth 1-3 (2-5 top groups, 2-4 children per parent) created through UpdateQuota, values from a small (0..12, frequent ties/residues), realistic (incl. byte-scale amounts whose products exceed 2^53) or 2^56-scale pool, shared weights absent (=max) / zero in one dimension / primes / huge, 30% non-lending groups, 0-3 pods per leaf with requests placed around min and max, cluster total placed below/at/above the top-level min and max sums, min-scaling on in 40%, ElasticQuotaGuaranteeUsage gate on in 15%; 25% crafted min-scaling scenarios (2-3 top-level parents with leaf children, byte-scale memory and milli-cpu mins, skewed weights, requests at/above the mins). 2-4 epochs of changes: cluster total, pod add/delete, min/max/weight updates, re-parent (alone or with a min/max change), delete of a childless group (pods drained or not) and re-creation under the same name; with min-scaling on a move/delete is followed by steering the old parent's total between the min sum of the remaining children and the sum including the detached child (or the new parent's total between its old and new sum), and 'boundary' steps put a parent's total exactly on / one unit beside the sum of its children's mins (non-root parents by bisection on the cluster total). After every epoch: refresh sweeps, the per-level sibling oracle and a fresh manager fed the final objects in another order. distinct = (depth of the level, siblings, outcome class, rounds, residual?, zero-weight competitor?, non-lending?, scaling, gate, after move/delete?); non-trivial = some level divided partially (pool shared but not every request met)"},
 		func(c *kit.Case) {
 			r := c.R
-			var st c02Stats
-			var scr c02Scratch
-			defer st.flush(c)
-			w, vs := c02GenWorld(r)
+			e := &c02Env{c: c, r: r}
+			defer e.st.flush(c)
+			w := c02GenWorld(r)
+			e.w = w
 			c02SetGate(c, w.gate)
 			defer c02SetGate(c, gate0)
-			c.Op("min-scaling=%v guarantee-gate=%v value-scale=%d groups=%d depth=%d", w.scale, w.gate, vs, len(w.order), w.depth)
-			m := c02NewMgr(w)
-			m.setTotal(w.genTotal(r, vs))
-			w.total = m.total
-			c.Op("cluster total %v", m.total)
+			c.Op("min-scaling=%v guarantee-gate=%v scenario=%v value-scale=%d groups=%d", w.scale, w.gate, w.scenario, w.vs, len(w.order))
+			e.m = c02NewMgr(w)
+			if w.scenario && r.Pct(60) {
+				e.setTotal(c02Vec{1 << 50, 1 << 58}) // ample
+			} else {
+				e.setTotal(w.genTotal(r))
+			}
+			c.Op("cluster total %v", e.m.total)
 			for _, n := range w.order {
-				g := w.groups[n]
-				if err := m.gqm.UpdateQuota(g.object()); err != nil {
-					c.Harness("UpdateQuota(%s): %v", n, err)
-				}
-				c.Op("create %s parent=%s isParent=%v lend=%v min=%v max=%v weight=%v(%v)", g.name, g.parent, g.isParent, g.lend, g.min, g.max, g.w, g.hasW)
+				e.apply(w.groups[n], "create")
 			}
-			leaves := w.leaves()
-			podID := 0
-			addPod := func() {
-				g := w.groups[kit.Pick(r, leaves)]
-				p := &c02Pod{name: fmt.Sprintf("p%03d", podID), group: g.name, req: w.genPodReq(r, g, vs), live: true}
-				podID++
-				if r.Pct(50) {
-					p.node = "n1"
-				}
-				w.pods = append(w.pods, p)
-				m.gqm.OnPodAdd(p.group, p.object())
-				c.Op("pod add %s -> %s req=%v node=%q", p.name, p.group, p.req, p.node)
-				c.Count("op_pod_add", 1)
-			}
-			for i, np := 0, r.Range(0, 2*len(leaves)); i < np; i++ {
-				addPod()
-			}
-			nontrivial := false
-			check := func(where string) {
-				all := w.order
-				var rt1 map[string]c02Vec
-				if w.scale {
-					for i := 0; i < w.depth; i++ {
-						m.sweep(c02Shuffled(r, all))
-					}
-				}
-				o1 := c02Shuffled(r, all)
-				rt1 = m.sweep(o1)
-				o2 := c02Shuffled(r, all)
-				rt2 := m.sweep(o2)
-				c.Count("refresh_sweeps_compared", 1)
-				for _, n := range all {
-					if rt1[n] != rt2[n] {
-						sig := "C02/tree/refresh-not-idempotent"
-						if w.scale {
-							sig += "-minscale"
-						}
-						c.Fail(sig, "%s: RefreshRuntime(%s) returned %v in a sweep in order %v and %v in the next sweep in order %v, nothing changed in between", where, n, rt1[n], o1, rt2[n], o2)
-					}
-				}
-				// immediate repetition on one group
-				n := kit.Pick(r, all)
-				a, b := c02Of(m.gqm.RefreshRuntime(n)), c02Of(m.gqm.RefreshRuntime(n))
-				if a != b || a != rt1[n] {
-					c.Fail("C02/tree/refresh-not-idempotent", "%s: RefreshRuntime(%s) twice in a row: %v then %v (sweep value %v)", where, n, a, b, rt1[n])
-				}
-				// per-level oracle
-				sums := map[string]*QuotaInfoSummary{}
-				for _, n := range all {
-					s, ok := m.gqm.GetQuotaSummary(n, false)
-					if !ok {
-						c.Harness("no summary for %s", n)
-					}
-					sums[n] = s
+			if w.scenario {
+				// every leaf asks for about its min or more
+				for _, n := range w.leaves() {
 					g := w.groups[n]
-					if c02Of(s.Max) != g.max || c02Of(s.Min) != g.min || c02Of(s.SharedWeight) != g.effW() {
-						c.Count("summary_differs_from_spec", 1)
+					e.addPodTo(g, w.genPodReq(r, g))
+					if r.Pct(30) {
+						e.addPodTo(g, w.genPodReq(r, g))
 					}
 				}
-				parents := []string{extension.RootQuotaName}
-				for _, n := range all {
-					if len(w.groups[n].children) > 0 {
-						parents = append(parents, n)
-					}
-				}
-				for _, p := range parents {
-					var kids []string
-					total := m.total
-					depth := 1
-					if p == extension.RootQuotaName {
-						for _, n := range all {
-							if w.groups[n].depth == 1 {
-								kids = append(kids, n)
-							}
-						}
-					} else {
-						kids = w.groups[p].children
-						total = rt1[p]
-						depth = w.groups[p].depth + 1
-					}
-					for d := 0; d < 2; d++ {
-						sibs := make([]c02Sib, len(kids))
-						rt := make([]int64, len(kids))
-						scaled := false
-						for i, k := range kids {
-							g, s := w.groups[k], sums[k]
-							req := c02Min64(c02Of(s.Request)[d], g.max[d])
-							mn := g.min[d]
-							if w.scale {
-								mn = c02Of(s.AutoScaleMin)[d]
-								if mn != g.min[d] {
-									scaled = true
-								}
-							}
-							sibs[i] = c02Sib{name: k, req: req, min: mn, guar: c02Of(s.Guaranteed)[d], w: g.effW()[d], lend: g.lend && !w.gate}
-							rt[i] = rt1[k][d]
-						}
-						if scaled {
-							c.Count("levels_with_scaled_min", 1)
-						}
-						sig, msg, o := c02Check("tree", sibs, total[d], rt, false, &st, &scr)
-						if sig != "" {
-							text := fmt.Sprintf("%s: children of %s, dimension %s, total (parent's runtime) %d: %s runtime=%v: %s", where, p, c02Dims[d], total[d], c02SibsString(sibs), rt, msg)
-							// diagnosis: is a sibling of this level affected by the stale request of a non-lending group?
-							var hit []string
-							for _, line := range m.staleNoLend(w) {
-								for _, k := range kids {
-									if len(line) > len(k) && line[:len(k)+1] == k+"/" {
-										hit = append(hit, line)
-									}
-								}
-							}
-							if len(hit) > 0 {
-								c.Report(c02SigStale, "%s [relation violated: %s; the parent's runtime calculator divides with a request of a non-lending child that was not refreshed when its min was set: %v]", text, sig, hit)
-								c.Count("levels_hit_by_stale_nolend_request", 1)
-								continue
-							}
-							if w.scale {
-								sig += "-minscale"
-							}
-							c.Fail(sig, "%s", text)
-						}
-						c.Count("levels_checked", 1)
-						c.Count(fmt.Sprintf("levels_checked_depth%d", depth), 1)
-						if o.class == c02ClassPartial {
-							nontrivial = true
-							if depth > 1 {
-								c.Count("partial_divisions_below_top_level", 1)
-							}
-						}
-						nComp, zeroW, nolend := c02Describe(sibs)
-						c.Seen("tree", depth, len(sibs), o.class, c02Min64(int64(o.rounds), 7), o.residual, nComp, zeroW, nolend, w.scale, w.gate)
-					}
+			} else {
+				for i, np := 0, r.Range(0, 2*len(w.leaves())); i < np; i++ {
+					e.addPod()
 				}
 			}
-			check("after creation")
+			e.check("after creation", false)
 			epochs := r.Range(2, 4)
-			for e := 0; e < epochs; e++ {
+			for ep := 0; ep < epochs; ep++ {
+				structural := false
 				nops := r.Range(1, 4)
+				if w.scenario {
+					nops = r.Range(1, 2)
+				}
 				for i := 0; i < nops; i++ {
-					switch r.Weighted(30, 25, 15, 30) {
+					weights := []int{24, 20, 12, 24, 8, 6, 4, 2}
+					if w.scenario {
+						weights = []int{4, 6, 4, 8, 28, 14, 10, 26}
+					} else if w.scale {
+						weights = []int{22, 18, 10, 22, 10, 7, 5, 6}
+					}
+					switch r.Weighted(weights...) {
 					case 0:
-						m.setTotal(w.genTotal(r, vs))
-						w.total = m.total
-						c.Op("cluster total %v", m.total)
+						e.setTotal(w.genTotal(r))
+						c.Op("cluster total %v", e.m.total)
 						c.Count("op_total_change", 1)
 					case 1:
-						addPod()
+						e.addPod()
 					case 2:
 						var live []*c02Pod
 						for _, p := range w.pods {
@@ -566,126 +1282,39 @@ func TestVerifC02Tree(t *testing.T) {
 							break
 						}
 						p := kit.Pick(r, live)
-						m.gqm.OnPodDelete(p.group, p.object())
+						e.m.gqm.OnPodDelete(p.group, p.object())
 						p.live = false
 						c.Op("pod delete %s from %s", p.name, p.group)
 						c.Count("op_pod_delete", 1)
+					case 3:
+						e.updateFields()
+					case 4:
+						structural = e.reparent() || structural
+					case 5:
+						if e.deleteLeaf() {
+							structural = true
+							if r.Pct(50) {
+								e.recreate()
+							}
+						}
+					case 6:
+						structural = e.recreate() || structural
 					default:
-						g := w.groups[kit.Pick(r, w.order)]
-						switch r.Intn(3) {
-						case 0: // min, within [sum of children mins, min(max, parent's min - siblings' mins)]
-							for d := 0; d < 2; d++ {
-								var lo int64
-								for _, k := range g.children {
-									lo += w.groups[k].min[d]
-								}
-								hi := g.max[d]
-								if g.parent != extension.RootQuotaName {
-									p := w.groups[g.parent]
-									room := p.min[d]
-									for _, k := range p.children {
-										if k != g.name {
-											room -= w.groups[k].min[d]
-										}
-									}
-									hi = c02Min64(hi, room)
-								}
-								if hi >= lo {
-									g.min[d] = lo + r.Int63n(hi-lo+1)
-									if r.Pct(25) {
-										g.min[d] = hi
-									}
-								}
-							}
-							c.Count("op_min_change", 1)
-						case 1: // max >= min
-							for d := 0; d < 2; d++ {
-								g.max[d] = g.min[d] + c02TreeValue(r, vs, d)
-								if r.Pct(20) {
-									g.max[d] = g.min[d]
-								}
-							}
-							c.Count("op_max_change", 1)
-						default:
-							c02GenWeight(r, g, vs)
-							c.Count("op_weight_change", 1)
-						}
-						if err := m.gqm.UpdateQuota(g.object()); err != nil {
-							c.Harness("UpdateQuota(%s): %v", g.name, err)
-						}
-						c.Op("update %s min=%v max=%v weight=%v(%v)", g.name, g.min, g.max, g.w, g.hasW)
+						e.boundary()
 					}
 				}
-				check(fmt.Sprintf("epoch %d", e))
+				e.check(fmt.Sprintf("epoch %d", ep), structural)
 			}
-			// fresh instance fed the final inputs in another order
-			final := m.sweep(w.order)
-			f := c02NewMgr(w)
-			// creation order: parents before children, siblings shuffled
-			var forder []string
-			var walk func(parent string, d int)
-			walk = func(parent string, d int) {
-				var kids []string
-				for _, n := range w.order {
-					if w.groups[n].parent == parent {
-						kids = append(kids, n)
-					}
-				}
-				kit.Shuffle(r, kids)
-				forder = append(forder, kids...)
-				for _, k := range kids {
-					walk(k, d+1)
-				}
-			}
-			walk(extension.RootQuotaName, 1)
-			totalFirst := r.Bool()
-			if totalFirst {
-				f.setTotal(w.total)
-			}
-			for _, n := range forder {
-				if err := f.gqm.UpdateQuota(w.groups[n].object()); err != nil {
-					c.Harness("fresh UpdateQuota(%s): %v", n, err)
-				}
-			}
-			pods := append([]*c02Pod(nil), w.pods...)
-			kit.Shuffle(r, pods)
-			for _, p := range pods {
-				if p.live {
-					f.gqm.OnPodAdd(p.group, p.object())
-				}
-			}
-			if !totalFirst {
-				f.setTotal(w.total)
-			}
-			if w.scale {
-				for i := 0; i < w.depth; i++ {
-					f.sweep(c02Shuffled(r, forder))
-				}
-			}
-			fresh := f.sweep(c02Shuffled(r, forder))
-			c.Count("fresh_instance_comparisons", 1)
-			for _, n := range w.order {
-				if fresh[n] != final[n] {
-					sig := "C02/tree/fresh-instance-differs"
-					if w.scale {
-						sig += "-minscale"
-					}
-					text := fmt.Sprintf("group %s: the manager that lived through the history reports runtime %v, a fresh manager fed the same quotas (order %v), pods and cluster total %v reports %v", n, final[n], forder, w.total, fresh[n])
-					if a, b := m.staleNoLend(w), f.staleNoLend(w); len(a)+len(b) > 0 {
-						c.Report(c02SigStale, "%s [history dependence; stale requests of non-lending groups in the parent's calculator: lived %v, fresh %v]", text, a, b)
-						c.Count("fresh_instance_hit_by_stale_nolend_request", 1)
-						break
-					}
-					c.Fail(sig, "%s", text)
-				}
-			}
-			if nontrivial {
+			if e.nontrivial {
 				c.NonTrivial()
 			}
 			if w.scale {
 				c.Count("cases_minscale_on", 1)
 			} else {
 				c.Count("cases_minscale_off", 1)
+			}
+			if w.scenario {
+				c.Count("cases_minscale_scenario", 1)
 			}
 			if w.gate {
 				c.Count("cases_guarantee_gate_on", 1)
